@@ -237,7 +237,8 @@ class Normalize(Command):
         arr_min = arr.min()
         arr_max = arr.max()
 
-        return (arr - arr_min) * (start - end) / (arr_min - arr_max) + start
+        # (arr_min - arr_max) would wrap around for unsigned data; this is the same line through (min, start), (max, end)
+        return (arr - arr_min) * (end - start) / (arr_max - arr_min) + start
 
 
 class NormalizeZScore(Command):
